@@ -176,7 +176,7 @@ func vfWaOperands(f OpFormatType, a *abi.AsArgument) vfOpList {
 	case OpFormatType_op_2R, OpFormatType_hint_2R:
 		I(int64(a.Rd)); R(a.Rs1); R(a.Rs2)
 	case OpFormatType_3F_ca:
-		F(a.Rd); F(a.Rs1); F(a.Rs2); CC(a.Rs3)
+		F(a.Rd); F(a.Rs1); F(a.Rs2); o.add(vfKFCC, imm) // the condition flag number travels in Imm
 	case OpFormatType_cj_offset:
 		CC(a.Rs1); I(imm)
 	case OpFormatType_rj_offset:
@@ -189,6 +189,40 @@ func vfWaOperands(f OpFormatType, a *abi.AsArgument) vfOpList {
 		o.add(98, 0)
 	}
 	return o
+}
+
+// vfXarchNormalise maps the disassembler's GNU-assembler presentation onto the
+// encoder's operand convention (documented differences, not findings):
+//   - AM* atomics and sc.q are written `rd, rk, rj` in GNU syntax; Wa's Rs1 is rj, Rs2 is rk;
+//   - alsl.{w,wu,d} show the shift amount as sa2+1; Wa passes the raw field (wat2la: "alsl.d ..., 2 # <<(2+1)");
+//   - ldptr/stptr/ll/sc show the byte offset si14<<2; Wa passes the raw si14.
+func vfXarchNormalise(name string, f OpFormatType, o *vfOpList) {
+	if f == OpFormatType_3R && len(name) > 2 && (name[:2] == "am" || name == "sc.q") && o.n == 3 {
+		o.kind[1], o.kind[2] = o.kind[2], o.kind[1]
+		o.val[1], o.val[2] = o.val[2], o.val[1]
+	}
+	if f == OpFormatType_3R_sa2 && len(name) > 4 && name[:4] == "alsl" && o.n == 4 {
+		o.val[3]--
+	}
+	if f == OpFormatType_2R_si14 && o.n == 3 && name != "addu16i.d" {
+		if o.val[2]%4 == 0 {
+			o.val[2] /= 4
+		} else {
+			o.kind[2] = 97
+		}
+	}
+}
+
+func vfRelaxedZone(f OpFormatType, imm int32) bool {
+	switch f {
+	case OpFormatType_2R_si12, OpFormatType_1F_1R_si12, OpFormatType_code_1R_si12, OpFormatType_hint_1R_si12:
+		return imm >= 1<<11
+	case OpFormatType_2R_si14:
+		return imm >= 1<<13
+	case OpFormatType_1R_si20:
+		return imm >= 1<<19
+	}
+	return false
 }
 
 func VfH_enc() {
@@ -214,15 +248,34 @@ func VfH_enc() {
 	}
 	vfObserve("word", uint64(x))
 	wo := vfWaOperands(ctx.fmt, arg)
+	// The encoder deliberately accepts signed immediates up to the unsigned
+	// maximum of the field ("可以放宽到无符号", for %pc_lo12-style operands); those
+	// words read back negative. That zone gets its own assertion labels so that a
+	// known finding about it cannot mask the ordinary signed range.
+	zone := ""
+	if vfRelaxedZone(ctx.fmt, arg.Imm) {
+		zone = "@relaxed-unsigned-imm"
+	}
 
 	// (1) independent disassembler
 	buf := []byte{byte(x), byte(x >> 8), byte(x >> 16), byte(x >> 24)}
 	inst, derr := loong64asm.Decode(buf)
+	if !vfSymbolic() {
+		vfLog("xarch: " + inst.String())
+		if a2, g2, _, e2 := DecodeEx(x); e2 == nil {
+			vfLog("wa: " + AsmSyntax(a2, "", g2))
+		}
+	}
 	vfAssert(derr == nil, "enc/xarch-decodes")
 	if derr == nil {
 		vfAssert(vfNorm(inst.Op.String()) == vfNorm(name), "enc/xarch-same-op")
 		xo := vfXarchOperands(inst)
-		vfAssert(vfSame(&xo, &wo), "enc/xarch-same-operands")
+		vfXarchNormalise(name, ctx.fmt, &xo)
+		if zone == "" {
+			vfAssert(vfSame(&xo, &wo), "enc/xarch-same-operands")
+		} else {
+			vfAssert(vfSame(&xo, &wo), "enc/xarch-same-operands"+zone)
+		}
 	}
 
 	// (2) Wa's own decoder returns the original instruction
@@ -235,7 +288,11 @@ func VfH_enc() {
 		vfAssert(as2 == as, "enc/wa-decoder-same-op")
 		if as2 == as {
 			wo2 := vfWaOperands(ctx.fmt, arg2)
-			vfAssert(vfSame(&wo, &wo2), "enc/wa-decoder-same-operands")
+			if zone == "" {
+				vfAssert(vfSame(&wo, &wo2), "enc/wa-decoder-same-operands")
+			} else {
+				vfAssert(vfSame(&wo, &wo2), "enc/wa-decoder-same-operands"+zone)
+			}
 		}
 	}
 }
